@@ -1,0 +1,6 @@
+//go:build !verif
+
+package server
+
+// verifEvent is a no-op unless built with -tags verif.
+func verifEvent(string, ...interface{}) {}
